@@ -16,6 +16,12 @@ NONE_OBJ = {"c": "NoneType", "v": "None", "items": []}
 
 # --------------------------------------------------------------------------- codec
 def obj_to_py(o: dict) -> Any:
+    if o["c"] == "function":
+        return PU.FUNCTIONS[o["v"]]
+    if o["c"] == "type":
+        return PU.CLASSES[o["v"]]
+    if (o["c"], o["v"]) in PU.EXTRA_INSTANCES:
+        return PU.EXTRA_INSTANCES[(o["c"], o["v"])]
     if o["v"] == "inst":
         return PU.INSTANCES[o["c"]]
     try:
@@ -49,6 +55,12 @@ def term_to_value(t: dict):
         if not t["ms"]:
             return V.NO_RETURN_VALUE
         return V.MultiValuedValue([term_to_value(m) for m in t["ms"]])
+    if k == "callable":  # Callable[[P..], R]: positional-only parameters
+        from pyanalyze import signature as S
+
+        params = [S.SigParameter(p["n"] + str(i), S.ParameterKind.POSITIONAL_ONLY, annotation=term_to_value(p["t"][0]))
+                  for i, p in enumerate(t["ps"])]
+        return V.CallableValue(S.Signature.make(params, term_to_value(t["ret"])))
     raise core.MachineryError(f"cannot decode protocol term {t}")
 
 
@@ -58,7 +70,20 @@ def term_to_annotation(t: dict) -> str:
         return t["c"]
     if k == "generic":
         return f"{t['c']}[{', '.join(term_to_annotation(a) for a in t['args'])}]"
+    if k == "callable":
+        return f"Callable[[{', '.join(term_to_annotation(p['t'][0]) for p in t['ps'])}], {term_to_annotation(t['ret'])}]"
     raise core.MachineryError(f"no annotation for {t}")
+
+
+def literal_expr(o: dict) -> str:
+    """Source text (inside the snippet module) that evaluates to the literal object."""
+    if o["c"] in ("function", "type"):
+        return f"HP.{o['v']}"
+    if (o["c"], o["v"]) in PU.EXTRA_INSTANCES:
+        return f"HP.INST_{o['c']}_{o['v']}"
+    if o["v"] == "inst":
+        return f"HP.INST_{o['c']}"
+    raise core.MachineryError(f"no literal expression for {o}")
 
 
 # --------------------------------------------------------------------------- self-test: PTab against the real classes
@@ -77,6 +102,7 @@ def _anno_term(s: Any) -> dict:
 def _introspect_entry(name: str, cls: type, user: bool) -> dict:
     """What the class body holds under `name`, in the vocabulary of PTab."""
     ann = cls.__dict__.get("__annotations__", {})
+    ann = ann if isinstance(ann, dict) else {}
     inst = PU.INSTANCES.get(cls.__name__) if user else None
     none_t = {"k": "known", "o": NONE_OBJ}
     if name in cls.__dict__:
@@ -101,6 +127,19 @@ def _introspect_entry(name: str, cls: type, user: bool) -> dict:
     return {"n": name, "k": "iattr", "t": _anno_term(ann[name]), "ps": [], "v": v}
 
 
+def selftest_functions(rows: list[dict]) -> int:
+    """PFun against the real functions."""
+    by = {r["fn"]: r for r in rows}
+    if set(by) != set(PU.FUNCTIONS):
+        raise core.MachineryError(f"PFun and proto_universe.FUNCTIONS differ: {sorted(set(by) ^ set(PU.FUNCTIONS))}")
+    for name, f in PU.FUNCTIONS.items():
+        real = {"ps": [_anno_term(f.__annotations__[p]) for p in inspect.signature(f).parameters], "t": _anno_term(f.__annotations__["return"])}
+        model = {"ps": list(by[name]["ps"]), "t": by[name]["t"]}
+        if real != model:
+            raise core.MachineryError(f"PFun[{name}] = {model} but the real function has {real}")
+    return len(by)
+
+
 def selftest_table(rows: list[dict], order: list[str]) -> dict:
     """Compare the class table TLC printed with the real classes.  Raises MachineryError on any difference."""
     if order != sorted(order):
@@ -108,7 +147,7 @@ def selftest_table(rows: list[dict], order: list[str]) -> dict:
     by = {r["cls"]: r for r in rows}
     if set(by) != set(PU.CLASSES):
         raise core.MachineryError(f"PTab and proto_universe.CLASSES differ: {sorted(set(by) ^ set(PU.CLASSES))}")
-    kinds = [("special", PU.SPECIAL), ("abc", PU.ABCS), ("builtin", PU.BUILTINS), ("proto", PU.PROTOCOLS), ("plain", PU.PLAIN)]
+    kinds = [("special", PU.SPECIAL), ("rtype", PU.RUNTIME_TYPES), ("abc", PU.ABCS), ("builtin", PU.BUILTINS), ("proto", PU.PROTOCOLS), ("plain", PU.PLAIN)]
     n_entries = 0
     for kind, table in kinds:
         for name, cls in table.items():
@@ -124,7 +163,9 @@ def selftest_table(rows: list[dict], order: list[str]) -> dict:
             mro = [b.__name__ for b in cls.__mro__[1:]]
             if list(r["mro"]) != mro:
                 problems.append(f"mro {r['mro']} != {mro}")
-            real_names = sorted(n for n in order if n in cls.__dict__ or n in cls.__dict__.get("__annotations__", {}))
+            ann = cls.__dict__.get("__annotations__", {})
+            ann = ann if isinstance(ann, dict) else {}  # (type.__dict__["__annotations__"] is a descriptor)
+            real_names = sorted(n for n in order if n in cls.__dict__ or n in ann)
             if sorted(e["n"] for e in r["own"]) != real_names:
                 problems.append(f"own names {[e['n'] for e in r['own']]} != {real_names}")
             else:
@@ -293,16 +334,20 @@ def observe_runtime(arg):
 def snippet_module(a: dict, bs: list[dict]) -> tuple[str, list[tuple[int, dict]]]:
     """`def use(p: A)` + one call per B (B = Typed(K): `use(K())`; Known(K()): `use(HP.INST_K)`; a protocol type or a
     builtin: a parameter of that type is passed on)."""
-    lines = ["from harness.proto_universe import *", "from harness import proto_universe as HP", "",
+    lines = ["from collections.abc import Callable", "from harness.proto_universe import *", "from harness import proto_universe as HP", "",
              f"def use(p: {term_to_annotation(a)}) -> None:", "    pass", ""]
     calls = []
     for i, b in enumerate(bs):
-        if b["k"] == "known" and b["o"]["v"] == "inst":
-            lines.append(f"use(HP.INST_{b['o']['c']})")
+        if b["k"] == "known" and b["o"]["c"] not in PU.BUILTINS and b["o"]["c"] != "NoneType":
+            lines.append(f"use({literal_expr(b['o'])})")
         elif b["k"] == "typed" and b["c"] in PU.PLAIN:
             lines.append(f"use({b['c']}())")
-        elif b["k"] in ("typed", "generic"):
+        elif b["k"] in ("typed", "generic", "callable"):
             lines += [f"def via{i}(x: {term_to_annotation(b)}) -> None:", "    use(x)"]
+        elif b["k"] == "union" and len(b["ms"]) == 2 and all(m["k"] == "known" and m["o"]["c"] in PU.CLASSES and m["o"]["c"] not in PU.BUILTINS
+                                                              for m in b["ms"]):
+            # `x if flag else y`: the union of the two literals, in this order
+            lines += [f"def via{i}(flag: bool) -> None:", f"    use({literal_expr(b['ms'][0]['o'])} if flag else {literal_expr(b['ms'][1]['o'])})"]
         else:
             continue
         calls.append((len(lines), b))
